@@ -157,6 +157,18 @@ class ACond:
         return "(%r %s %r)" % (self.left, self.op, self.right)
 
 
+class PosVal:
+    """A character position inside a string with holes: `off` characters into literal part `part` (hole lengths are
+    unknown, so positions are relative to a literal part).  Results of find()/index(); usable in slices of the same
+    string and in sign tests."""
+
+    def __init__(self, owner, part, off):
+        self.owner, self.part, self.off = owner, part, off
+
+    def __repr__(self):
+        return "<pos %d+%d>" % (self.part, self.off)
+
+
 class StreamVal:
     """A one-shot iterator over a finite list of (symbolic) items: consumption is state, exactly as for a Python
     generator, so `peek and put back` code can be judged on what is left in it."""
@@ -328,7 +340,7 @@ class Interp:
         self.depth = 0
 
     # ------------------------------------------------------------- driver
-    def run(self, func, args, self_obj=None, copy_args=True):
+    def run(self, func, args, self_obj=None, copy_args=True, copy_self=False):
         """All traces of func(**args) under every undecided branch.  copy_args=False hands the very argument objects to
         the code (to observe stores through them); only meaningful when the evaluation does not fork."""
         traces = []
@@ -343,7 +355,13 @@ class Interp:
             self.trace = Trace()
             self.depth = 0
             try:
-                v = self.call_func(func, [], copy.deepcopy(dict(args)) if copy_args else dict(args), self_obj=self_obj, node=func.node)
+                # copy_self: arguments and receiver are copied together (shared parts stay shared): no store leaks between paths
+                if copy_args and copy_self:
+                    a_, me_ = copy.deepcopy((dict(args), self_obj))
+                else:
+                    a_, me_ = (copy.deepcopy(dict(args)) if copy_args else dict(args)), self_obj
+                self.trace.self_obj = me_
+                v = self.call_func(func, [], a_, self_obj=me_, node=func.node)
                 self.trace.result = ("return", v)
             except RaiseEx as e:
                 self.trace.result = ("raise", e.exc, e.msg)
@@ -666,6 +684,20 @@ class Interp:
         if isinstance(target, ast.Name):
             env[target.id] = v
         elif isinstance(target, (ast.Tuple, ast.List)):
+            stars = [i for i, t in enumerate(target.elts) if isinstance(t, ast.Starred)]
+            if stars and isinstance(v, (list, tuple)) and not any(isinstance(x, Star) for x in v):
+                i = stars[0]
+                after = len(target.elts) - i - 1
+                if len(stars) > 1:
+                    raise Unsupported("two starred targets")
+                if len(v) < len(target.elts) - 1:
+                    raise RaiseEx("ValueError", "not enough values to unpack", target)
+                for t, x in zip(target.elts[:i], v[:i]):
+                    self.assign(t, x, env)
+                self.assign(target.elts[i].value, list(v[i:len(v) - after]), env)
+                for t, x in zip(target.elts[i + 1:], v[len(v) - after:] if after else []):
+                    self.assign(t, x, env)
+                return
             if isinstance(v, (list, tuple)):
                 if any(isinstance(x, Star) for x in v):
                     raise Unsupported("unpack of spliced list")
@@ -753,7 +785,7 @@ class Interp:
         if node.id in ("str", "int", "list", "tuple", "dict", "set", "bytes", "float", "bool", "object"):
             return TypeVal(node.id)
         if node.id in ("isinstance", "len", "map", "locals", "hasattr", "any", "all", "sorted", "enumerate",
-                       "range", "zip", "getattr", "iter", "print", "min", "max", "repr", "type", "ord", "chr", "hex", "setattr", "delattr", "next", "vars", "callable", "sum", "abs", "hash", "float", "slice", "open"):
+                       "range", "zip", "getattr", "iter", "print", "min", "max", "repr", "type", "ord", "chr", "hex", "setattr", "delattr", "next", "vars", "callable", "sum", "abs", "hash", "float", "slice", "open", "issubclass", "reversed", "divmod", "format", "filter"):
             return Builtin(node.id)
         if node.id in ("ValueError", "TypeError", "KeyError", "NotImplementedError", "Exception", "StopIteration"):
             return TypeVal(node.id)
@@ -780,6 +812,8 @@ class Interp:
         if isinstance(base, (Opaque, Sym)):
             if node.attr in base.attrs:
                 return base.attrs[node.attr]
+            if node.attr == "__getitem__":
+                return BoundMethod(base, node.attr)
             if isinstance(base, Opaque) and base.attrs and base.name not in ("self", "cls"):
                 # a read-only property of a package class (Feature.chrom / .stop)
                 m_ = self._class_method(base.kind, node.attr)
@@ -872,6 +906,10 @@ class Interp:
                 return a + b
             if isinstance(a, Sym) or isinstance(b, Sym):
                 return Sym("(%s + %s)" % (_nm(a), _nm(b)), "int", True)
+        if isinstance(a, PosVal) and isinstance(b, int) and not isinstance(b, bool) and isinstance(op, (ast.Add, ast.Sub)):
+            return PosVal(a.owner, a.part, a.off + (b if isinstance(op, ast.Add) else -b))
+        if isinstance(b, PosVal) and isinstance(a, int) and not isinstance(a, bool) and isinstance(op, ast.Add):
+            return PosVal(b.owner, b.part, b.off + a)
         if isinstance(op, ast.Sub):
             if isinstance(a, (int, float)) and isinstance(b, (int, float)):
                 return a - b
@@ -1059,6 +1097,19 @@ class Interp:
             if isinstance(res, ACond):
                 return res if isinstance(op, ast.In) else ACond("not", res, None, node)
             return res if isinstance(op, ast.In) else not res
+        for x, y, flip in ((a, b, False), (b, a, True)):
+            if isinstance(x, PosVal) and isinstance(y, int) and not isinstance(y, bool) and y <= 0:
+                # a found position is >= 0 (and > any negative number)
+                table = {ast.Eq: y == 0 and None, ast.NotEq: None, ast.Lt: False, ast.LtE: None, ast.Gt: True if y < 0 else None, ast.GtE: True}
+                if flip:
+                    table = {ast.Eq: table[ast.Eq], ast.NotEq: None, ast.Gt: False, ast.GtE: None, ast.Lt: True if y < 0 else None, ast.LtE: True}
+                if y < 0:
+                    table[ast.Eq], table[ast.NotEq] = False, True
+                r_ = table.get(type(op))
+                if r_ is not None and r_ is not False or (r_ is False):
+                    if r_ is not None:
+                        return r_
+                raise Unsupported("comparison of a string position with %d" % y)
         # a character of a hole is assumed not to be one of the structural characters
         for x, y in ((a, b), (b, a)):
             if isinstance(x, Sym) and x.kind == "char" and isinstance(y, str) and len(y) == 1 and y in self.hole_free_of:
@@ -1106,7 +1157,30 @@ class Interp:
             raise RaiseEx("TypeError", str(e), node)
         raise Unsupported("comparison %s" % type(op).__name__)
 
+    def _sym_lookup(self, table, key, node):
+        """A symbolic string key looked up in a concrete table of string keys: one path per key it may equal, and one
+        on which it equals none.  ("hit", value) / ("miss",); None when the key is not symbolic."""
+        if not (isinstance(key, Sym) and key.kind in ("str", "char", "any") and key.truthy is not False):
+            return None
+        if any(k is key for k in table):
+            return None
+        keys = [k for k in table if isinstance(k, str)]
+        if not keys or len(keys) != len(table):
+            return None
+        if len(keys) > 96:
+            raise Unsupported("symbolic key looked up in a table of %d entries" % len(keys))
+        for k in keys:
+            if self.decide(ACond("==", key, k, node), node):
+                return ("hit", table[k])
+        return ("miss",)
+
     def contains(self, coll, item, node):
+        if isinstance(coll, range):
+            if isinstance(item, int) and not isinstance(item, bool):
+                return item in coll
+            if isinstance(item, Sym):
+                return ACond("in", item, ("range", coll.start, coll.stop, coll.step), node)
+            return False
         if isinstance(coll, AStr) or (isinstance(coll, str) and isinstance(item, (str, AStr, Sym))):
             if isinstance(item, str):
                 if isinstance(coll, str):
@@ -1133,8 +1207,41 @@ class Interp:
         if isinstance(node.slice, ast.Slice):
             lo = self.eval(node.slice.lower, env) if node.slice.lower else None
             hi = self.eval(node.slice.upper, env) if node.slice.upper else None
+            if node.slice.step is not None:
+                step = self.eval(node.slice.step, env)
+                if isinstance(base, (list, tuple, str)) and all(x is None or (isinstance(x, int) and not isinstance(x, bool)) for x in (lo, hi, step)):
+                    return base[lo:hi:step]
+                raise Unsupported("extended slice of %r" % (base,))
             if isinstance(base, (list, tuple, str)):
                 return base[lo:hi]
+            if isinstance(base, AStr) and (isinstance(lo, PosVal) or isinstance(hi, PosVal)) and all(x is None or x == 0 or isinstance(x, PosVal) for x in (lo, hi)):
+                parts = list(base.parts)
+                for x in (lo, hi):
+                    if isinstance(x, PosVal) and (x.owner != base.render() or not (0 <= x.off <= len(parts[x.part]))):
+                        raise Unsupported("slice position outside the literal text it was found in")
+                if isinstance(hi, PosVal):
+                    parts = parts[:hi.part] + [parts[hi.part][:hi.off]]
+                if isinstance(lo, PosVal):
+                    if isinstance(hi, PosVal) and (lo.part, lo.off) > (hi.part, hi.off):
+                        return ""
+                    tail = parts[lo.part][lo.off:] if lo.part < len(parts) else ""
+                    parts = [tail] + parts[lo.part + 1:]
+                return AStr(parts).simplify()
+            if isinstance(base, AStr) and lo in (None, 0) and isinstance(hi, int) and not isinstance(hi, bool) and hi > 0 and base.parts:
+                # a short prefix: inside the first literal part, or the first character of a leading hole
+                first = base.parts[0]
+                if isinstance(first, str) and len(first) >= hi:
+                    return first[:hi]
+                if hi == 1 and not isinstance(first, str):
+                    return Sym("%s[0]" % getattr(first, "name", "rep"), "char", True)
+            if isinstance(base, AStr) and hi is None and isinstance(lo, int) and not isinstance(lo, bool) and lo < 0 and base.parts:
+                last = base.parts[-1]
+                if isinstance(last, str) and len(last) >= -lo:
+                    return last[lo:]
+                if lo == -1 and not isinstance(last, str):
+                    return Sym("%s[-1]" % getattr(last, "name", "rep"), "char", True)
+            if isinstance(base, Sym) and base.kind == "str" and ((lo in (None, 0) and hi == 1) or (lo == -1 and hi is None)):
+                return Sym("%s[%d]" % (base.name, 0 if hi == 1 else -1), "char", True)
             if isinstance(base, AStr) and lo in (None, 0, 1) and hi in (None, -1):
                 parts = list(base.parts)
                 if lo == 1:
@@ -1150,6 +1257,9 @@ class Interp:
                 return Sym("%s[%s:%s]" % (base.name, lo, hi), "any", None)
             raise Unsupported("slice of %r" % (base,))
         key = self.eval(node.slice, env)
+        return self._getitem(base, key, node, env)
+
+    def _getitem(self, base, key, node, env):
         if isinstance(key, slice) and key.step is None:
             if isinstance(base, (list, tuple, str)):
                 return base[key]
@@ -1167,8 +1277,13 @@ class Interp:
         if isinstance(base, Sym) and base.kind == "str" and isinstance(key, int):
             return Sym("%s[%d]" % (base.name, key), "char", True)
         if isinstance(base, dict):
+            hit = self._sym_lookup(base, key, node)
+            if hit is not None and hit[0] == "hit":
+                return hit[1]
             if key not in base:
                 import collections as _c
+                if isinstance(base, CounterVal):
+                    return 0
                 if isinstance(base, _c.defaultdict) and base.default_factory is not None:
                     base[key] = base.default_factory()
                     return base[key]
@@ -1210,6 +1325,8 @@ class Interp:
             if isinstance(pos[0], (StreamVal, HostIter)):
                 return HostIter(_it.islice(pos[0], *pos[1:]), "islice(%s)" % pos[0].name)
             return list(_it.islice(pos[0], *pos[1:]))
+        if name == "collections.OrderedDict":
+            return self.call_type("dict", pos, kw, node)
         if name == "collections.Counter" and not kw:
             c = CounterVal()
             if pos:
@@ -1249,9 +1366,30 @@ class Interp:
 
     def e_ListComp(self, node, env):
         if len(node.generators) != 1:
-            raise Unsupported("nested comprehension")
+            # several generators: the outer ones must range over concrete collections
+            out = []
+
+            def rec(i, e_):
+                if i == len(node.generators):
+                    out.append(self.eval(node.elt, e_))
+                    return
+                g_ = node.generators[i]
+                it_ = self.eval(g_.iter, e_)
+                if isinstance(it_, dict):
+                    it_ = list(it_.keys())
+                if not isinstance(it_, (list, tuple, StreamVal, HostIter)) or any(isinstance(x, Star) for x in it_ if isinstance(it_, (list, tuple))):
+                    raise Unsupported("nested comprehension over %r" % (it_,))
+                for x in it_:
+                    e2 = dict(e_)
+                    self.assign(g_.target, x, e2)
+                    if all(self.decide(self.eval(c, e2), c) for c in g_.ifs):
+                        rec(i + 1, e2)
+            rec(0, env)
+            return out
         g = node.generators[0]
         it = self.eval(g.iter, env)
+        if isinstance(it, (StreamVal, HostIter)):
+            it = list(it)
         if isinstance(it, (list, tuple, dict)):
             out = []
             for x in (list(it) if not isinstance(it, dict) else list(it.keys())):
@@ -1498,8 +1636,17 @@ class Interp:
             raise Unsupported("len(%r)" % (v,))
         if name == "map":
             f, coll = pos[0], pos[1]
-            if isinstance(coll, (list, tuple)):
+            if isinstance(coll, (StreamVal, HostIter)) and len(pos) == 2:
+                return HostIter((self.call(f, [x], {}, node, env) for x in coll), "map(%s)" % coll.name)
+            if isinstance(coll, (list, tuple)) and len(pos) == 2:
                 return [self.call(f, [x], {}, node, env) for x in coll]
+            if isinstance(coll, (list, tuple)) and all(isinstance(c_, (list, tuple)) for c_ in pos[1:]):
+                return [self.call(f, list(xs), {}, node, env) for xs in zip(*pos[1:])]
+            if isinstance(coll, str) and len(pos) == 2:
+                return [self.call(f, [x], {}, node, env) for x in coll]
+            if isinstance(coll, Sym) and len(pos) == 2:
+                # per element (per character of a symbolic string): like a comprehension over it
+                return RepList(self.call(f, [Sym("%s[]" % coll.name, "any", None)], {}, node, env), coll)
             if isinstance(coll, Opaque):
                 if isinstance(f, TypeVal) and f.name == "str":
                     return RepList(None, coll)
@@ -1602,6 +1749,31 @@ class Interp:
             n_ = min(len(x) for x in pos if isinstance(x, (list, tuple)))
             cols = [list(x) if isinstance(x, (list, tuple)) else [Sym("%s[%d]" % (x.name, i_), "any", None) for i_ in range(n_)] for x in pos]
             return [tuple(c[i_] for c in cols) for i_ in range(n_)]
+        if name == "issubclass" and len(pos) == 2 and isinstance(pos[0], TypeVal):
+            names_ = [x.name for x in pos[1]] if isinstance(pos[1], tuple) else [getattr(pos[1], "name", None)]
+            c_ = self.proj.classes.get(pos[0].name)
+            if c_ is not None:
+                return any(k.qual in names_ or k.name in [n_.split(".")[-1] for n_ in names_ if n_] for k in self.proj.mro(c_))
+            return pos[0].name in names_
+        if name == "reversed" and pos and isinstance(pos[0], (list, tuple)):
+            return list(reversed(pos[0]))
+        if name == "divmod" and len(pos) == 2 and all(isinstance(x, int) and not isinstance(x, bool) for x in pos) and pos[1] != 0:
+            return divmod(pos[0], pos[1])
+        if name == "getattr" and pos and isinstance(pos[0], ModVal) and isinstance(pos[1], str):
+            fake = ast.Attribute(value=ast.Name(id="_", ctx=ast.Load()), attr=pos[1], ctx=ast.Load())
+            env2 = dict(env)
+            env2["_"] = pos[0]
+            ast.copy_location(fake, node)
+            ast.copy_location(fake.value, node)
+            return self.e_Attribute(fake, env2)
+        if name == "getattr" and pos and isinstance(pos[0], Opaque) and isinstance(pos[1], str) and pos[1] not in pos[0].attrs:
+            # a method of the object's class, looked up by name
+            o_ = pos[0]
+            func_ = env.get("__func__")
+            c_ = getattr(func_, "cls", None) if o_.name in ("self", "cls") else None
+            m_ = self.proj.method(c_, pos[1]) if c_ is not None else (self._class_method(o_.kind, pos[1]) if o_.attrs else None)
+            if m_ is not None:
+                return BoundMethod(o_, pos[1])
         if name == "getattr":
             o, a = pos[0], pos[1]
             if isinstance(o, (Opaque, Sym)) and isinstance(a, str):
@@ -1630,10 +1802,17 @@ class Interp:
         if name == "range" and pos and all(isinstance(x, int) and not isinstance(x, bool) for x in pos):
             r_ = range(*pos)
             if len(r_) > 100000:
-                raise Unsupported("range of %d elements" % len(r_))
+                return r_          # only membership tests make sense on it
             return list(r_)
         if name == "iter":
+            if isinstance(pos[0], (list, tuple)) and not isinstance(pos[0], SetVal):
+                return StreamVal(pos[0], "iter(list)")      # one-shot, like the real list iterator
             return pos[0]
+        if name == "format" and pos:
+            spec = pos[1] if len(pos) > 1 else ""
+            if not isinstance(spec, str):
+                raise Unsupported("format() with an abstract specification")
+            return self.str_format(as_astr("{:%s}" % spec), [pos[0]], {}, node)
         if name == "print":
             return None
         raise Unsupported("builtin %s%r at line %s" % (name, tuple(pos), node.lineno))
@@ -1685,6 +1864,11 @@ class Interp:
             raise Unsupported("extend with %r" % (v,))
 
     def call_method(self, base, attr, pos, kw, node, env):
+        if attr == "__getitem__" and len(pos) == 1 and not kw:
+            return self._getitem(base, pos[0], node, env)
+        if isinstance(base, TypeVal) and base.name in ("str", "list", "dict", "tuple") and pos:
+            # unbound method of a builtin type: str.strip(x) == x.strip()
+            return self.call_method(pos[0], attr, pos[1:], kw, node, env)
         # ---- strings
         if isinstance(base, (str, AStr)) or (isinstance(base, Sym) and base.kind == "str" and attr in _STR_METHODS):
             s = as_astr(base)
@@ -1715,8 +1899,39 @@ class Interp:
                 return AStr(parts).simplify()
             if attr == "split":
                 return self.str_split(s, pos, node)
+            if attr == "splitlines" and not (pos and pos[0]) and not kw:
+                # holes are assumed free of line breaks
+                lines, cur = [], []
+                for p in s.parts:
+                    if isinstance(p, str):
+                        segs = p.replace("\r\n", "\n").replace("\r", "\n").split("\n")
+                        cur.append(segs[0])
+                        for sg in segs[1:]:
+                            lines.append(AStr(cur).simplify())
+                            cur = [sg]
+                    else:
+                        cur.append(p)
+                last = AStr(cur).simplify()
+                if not (isinstance(last, str) and last == "") and not (isinstance(last, AStr) and not last.parts):
+                    lines.append(last)
+                return lines
             if attr in ("partition", "rpartition") and pos:
                 return self.str_partition(s, pos[0], last=(attr == "rpartition"))
+            if attr in ("find", "rfind", "index", "rindex") and pos and isinstance(pos[0], str) and len(pos) == 1:
+                if s.is_concrete():
+                    r_ = getattr(s.literal(), attr.replace("index", "find"))(pos[0])
+                else:
+                    r_ = -1
+                    rng = range(len(s.parts) - 1, -1, -1) if attr.startswith("r") else range(len(s.parts))
+                    for i_ in rng:
+                        if isinstance(s.parts[i_], str):
+                            j_ = s.parts[i_].rfind(pos[0]) if attr.startswith("r") else s.parts[i_].find(pos[0])
+                            if j_ >= 0:
+                                r_ = PosVal(s.render(), i_, j_)
+                                break
+                if r_ == -1 and attr.endswith("index"):
+                    raise RaiseEx("ValueError", "substring not found", node)
+                return r_
             if attr in ("strip", "rstrip", "lstrip"):
                 if s.is_concrete():
                     return getattr(s.literal(), attr)(*pos)
@@ -1823,9 +2038,13 @@ class Interp:
                 self._counter_update(base, a_)
             return None
         if isinstance(base, CounterVal) and attr == "most_common":
-            return sorted(base.items(), key=lambda kv: -kv[1])
+            ranked = sorted(base.items(), key=lambda kv: -kv[1])
+            return ranked[:pos[0]] if pos and isinstance(pos[0], int) else ranked
         if isinstance(base, dict):
             if attr == "get":
+                hit = self._sym_lookup(base, pos[0], node) if pos else None
+                if hit is not None:
+                    return hit[1] if hit[0] == "hit" else (pos[1] if len(pos) > 1 else None)
                 return base.get(pos[0], pos[1] if len(pos) > 1 else None)
             if attr == "items":
                 return list(base.items())
@@ -1952,6 +2171,34 @@ class Interp:
             if s.is_concrete():
                 return s.literal().split()
             # holes are assumed free of whitespace: split the literal segments on runs of whitespace
+            maxsplit = pos[1] if len(pos) > 1 and isinstance(pos[1], int) and not isinstance(pos[1], bool) and pos[1] >= 0 else None
+            if maxsplit is not None:
+                # character stream of the string (holes are single non-blank items); after `maxsplit` cuts the rest,
+                # leading blanks dropped, is the last piece
+                items = []
+                for p in s.parts:
+                    items.extend(list(p) if isinstance(p, str) else [p])
+                pieces, cur, i = [], [], 0
+                blank = lambda x: isinstance(x, str) and x.isspace()
+                while i < len(items):
+                    if len(pieces) == maxsplit:
+                        while i < len(items) and blank(items[i]):
+                            i += 1
+                        if i < len(items):
+                            pieces.append(AStr(items[i:]).simplify())
+                        i = len(items)
+                        cur = []
+                        break
+                    if blank(items[i]):
+                        if cur:
+                            pieces.append(AStr(cur).simplify())
+                            cur = []
+                    else:
+                        cur.append(items[i])
+                    i += 1
+                if cur:
+                    pieces.append(AStr(cur).simplify())
+                return pieces
             pieces, cur = [], []
             for p in s.parts:
                 if isinstance(p, str):
@@ -2015,9 +2262,8 @@ class Interp:
                 if j >= 0:
                     before = AStr(parts[:i] + [p_[:j]]).simplify()
                     after = AStr([p_[j + len(sep):]] + parts[i + 1:]).simplify()
-                    conc = lambda a: a.literal() if a.is_concrete() else a
-                    return (conc(before), sep, conc(after))
-        whole = s.literal() if s.is_concrete() else s
+                    return (before, sep, after)
+        whole = s.simplify()
         return ("", "", whole) if last else (whole, "", "")
 
     def str_format(self, s, pos, kw, node):
@@ -2112,8 +2358,8 @@ class BoundMethod:
         return "<%r.%s>" % (self.base, self.attr)
 
 
-_STR_METHODS = {"format", "join", "lower", "upper", "count", "replace", "split", "strip", "rstrip",
-                "lstrip", "startswith", "endswith", "encode", "decode", "partition", "rpartition"}
+_STR_METHODS = {"format", "join", "lower", "upper", "count", "replace", "split", "splitlines", "strip", "rstrip",
+                "lstrip", "startswith", "endswith", "encode", "decode", "partition", "rpartition", "find", "rfind", "index", "rindex"}
 
 _OPS = {ast.Eq: "==", ast.NotEq: "!=", ast.Lt: "<", ast.LtE: "<=", ast.Gt: ">", ast.GtE: ">="}
 
